@@ -53,6 +53,8 @@ class C17(Check):
                     c2["xl"] = enc(decarr(cfg["xl"]) - 1.0); c2["xu"] = enc(decarr(cfg["xu"]) + 2.0)
                     c2["A"] = [[wrng.gauss(0, 1) for _ in range(c2["n_var"])] for _ in range(c2["n_obj"])]
                     c2["B"] = [[wrng.gauss(0, 1) for _ in range(c2["n_var"])] for _ in range(max(c2["n_ieq"], 1))]
+                    if c2.get("n_eq"):
+                        c2["Bh"] = [[wrng.gauss(0, 1) for _ in range(c2["n_var"])]]
                 if w == "other-asktell":
                     runs.fresh_run(c2, 3)
                 else:
@@ -70,6 +72,9 @@ class C17(Check):
             res = minimize(hist.make_problem(cfg), hist.make_algorithm(cfg), ("n_gen", G), seed=cfg["seed"], verbose=False)
             out["minimize_last"] = runs.fingerprint_pop(res.pop)
             out["again_last_pop"] = alg._last_pop_fp
+            # one algorithm object handed to minimize twice (minimize works on deep copies: no constructor runs in between)
+            algx = hist.make_algorithm(cfg)
+            out["twice"] = [runs.fingerprint_pop(minimize(hist.make_problem(cfg), algx, ("n_gen", G), seed=cfg["seed"], verbose=False).pop) for _ in range(2)]
             for mode, batch in (("one-by-one", 1), ("batches", 3)):
                 prob2 = hist.make_problem(cfg); alg2 = hist.make_algorithm(cfg)
                 alg2.setup(prob2, seed=cfg["seed"], termination=("n_gen", G + 1), verbose=False)
@@ -89,6 +94,9 @@ class C17(Check):
                 obs["workloads"], k, len(obs["again"]), len(ref))
         if "minimize_last" in obs and ref and obs["minimize_last"] != obs["again_last_pop"]:
             return "C17-minimize: minimize ends in a different population than the ask-and-tell run"
+        if "twice" in obs and ref and (obs["twice"][0] != obs["again_last_pop"] or obs["twice"][1] != obs["again_last_pop"]):
+            return "C17-same-object: one algorithm object passed to minimize twice: run %d ends in a different population than the reference" % (
+                1 if obs["twice"][0] != obs["again_last_pop"] else 2)
         for mode in ("one-by-one", "batches"):
             if mode in obs and obs[mode] != ref:
                 return "C17-external-%s: evaluating the offspring outside the algorithm (%s, shuffled) changes the run" % (mode, mode)
